@@ -160,6 +160,29 @@ def _match_verdict(b, dsite, l, depth=0):
                     v, d = _consume(b, st["pl"]["l"], s2, depth + 1)
                     return (v, "match: Err arm rebuilds Err(..) -> " + d)
             return ("err-arm-swallowed", "the Err arm continues without returning an error (`if let Ok(..)` / `match .. { Err(_) => {} }`)")
+    # the switch was decided per predecessor by jump threading (thread.py): this copy of the chain ends in a jump
+    # to the one arm that can be taken on the paths that reach it
+    t = b.term(dsite.bb)
+    if t.get("t") == "goto" and t.get("threaded") in ("Ok", "Some", "Err", "None"):
+        if t["threaded"] in ("Ok", "Some"):
+            return ("propagated", "on these paths the value is known to be Ok: there is no error to lose")
+        err_t = t["target"]
+        if diverges(b, err_t):
+            return ("err-arm-panics", "the Err arm cannot return (it panics)")
+        reg = {err_t} | {x for x in b.reachable_from(err_t) if b.dominates(err_t, x)}
+        for s, k, p in b.defs()[0].get(0, []):
+            if s.bb in reg:
+                if k == "call" and call_matches(callee_of(p), "::from_residual"):
+                    return ("propagated", "match: Err arm returns the error")
+                if k == "assign":
+                    e = b._expr_of_def((s, k, p))
+                    if e.k == "agg" and e.x.get("variant") == "Err":
+                        return ("propagated", "match: Err arm returns Err(..)")
+        for s2, st in b.sites():
+            if s2.i is not None and s2.bb in reg and st["s"] == "assign" and not st["pl"]["p"] and st["rv"]["rv"] == "agg" and st["rv"].get("variant") == "Err" and st["rv"].get("adt", "").endswith("result::Result"):
+                v, d = _consume(b, st["pl"]["l"], s2, depth + 1)
+                return (v, "match: Err arm rebuilds Err(..) -> " + d)
+        return ("err-arm-swallowed", "the Err arm continues without returning an error")
     return ("no-switch", "discriminant read but no switch found")
 
 
